@@ -2,6 +2,9 @@ package roomsim
 
 import (
 	"bytes"
+	"crypto/ed25519"
+	"crypto/sha256"
+	"encoding/base64"
 	"encoding/json"
 	"fmt"
 	"io"
@@ -409,11 +412,45 @@ func (rm *room) propose(i int, actor user, before map[ref.Key]string) (typ strin
 	honest := !t.Chance(250)
 	mem := membershipOf(rm, before, actor.id)
 	other := sim.Pick(t, rm.users)
-	choice := t.Weighted([]int{3, 2, 3, 2, 2, 2, 1, 1})
+	choice := t.Weighted([]int{3, 2, 3, 2, 2, 2, 1, 1, 1, 1})
 	if honest && mem != "join" {
 		choice = 0
 	}
 	switch choice {
+	case 8: // a third-party invite is published, replaced (other identity key) or revoked
+		tok := sim.Pick(t, []string{"tokA", "tokB"})
+		typ, sk = spec.MRoomThirdPartyInvite, world.Str(tok)
+		if t.Chance(250) {
+			content = map[string]any{} // revoked
+			r.Probe("third_party_invite_revoked")
+		} else {
+			pub := base64.RawStdEncoding.EncodeToString(identityKey(t.Intn(2)).Public().(ed25519.PublicKey))
+			content = map[string]any{"display_name": "x", "key_validity_url": "https://id.example/valid", "public_key": pub, "public_keys": []any{map[string]any{"public_key": pub, "key_validity_url": "https://id.example/valid"}}}
+		}
+	case 9: // a third-party invite is exchanged for a membership invite
+		tok := sim.Pick(t, []string{"tokA", "tokB"})
+		mxid := other.id
+		if !honest && t.Chance(300) {
+			mxid = actor.id // signed for somebody else
+		}
+		k := t.Intn(2)
+		if honest {
+			// the key the published invite names, if there is one
+			if id, ok := before[ref.Key{Type: spec.MRoomThirdPartyInvite, StateKey: tok}]; ok {
+				for i := 0; i < 2; i++ {
+					if strings.Contains(string(rm.nodes[id].ev.Content()), base64.RawStdEncoding.EncodeToString(identityKey(i).Public().(ed25519.PublicKey))) {
+						k = i
+					}
+				}
+			}
+		}
+		signed, err := gmsl.SignJSON("id.example", "ed25519:0", identityKey(k), []byte(fmt.Sprintf(`{"mxid":%q,"token":%q}`, mxid, tok)))
+		if err != nil {
+			panic(err)
+		}
+		typ, sk = spec.MRoomMember, world.Str(other.id)
+		content = map[string]any{"membership": "invite", "third_party_invite": map[string]any{"display_name": "x", "signed": json.RawMessage(signed)}}
+		r.Probe("third_party_invite_exchanged")
 	case 0: // membership of self
 		typ, sk = spec.MRoomMember, world.Str(actor.id)
 		m := "join"
@@ -463,6 +500,12 @@ func (rm *room) propose(i int, actor user, before map[ref.Key]string) (typ strin
 		r.Fault("byzantine_auth_events")
 	}
 	return
+}
+
+// identityKey returns one of two fixed identity-server keys (third-party invites).
+func identityKey(i int) ed25519.PrivateKey {
+	seed := sha256.Sum256([]byte(fmt.Sprintf("verif identity server key %d", i)))
+	return ed25519.NewKeyFromSeed(seed[:])
 }
 
 func lvl(v any) (int64, bool) {
@@ -524,9 +567,20 @@ func (rm *room) mutatePL(before map[ref.Key]string, actor user, honest bool) map
 		}
 		return sim.Pick(t, []int{int(my) + 1, int(my) + 50, int(my), 100, 0, -1, 9000})
 	}
-	nm := t.Range(1, 2)
+	nm := t.Range(1, 3)
 	for i := 0; i < nm; i++ {
-		switch t.Intn(6) {
+		switch t.Intn(7) {
+		case 6:
+			// two coordinated edits: drop somebody's entry and move
+			// users_default, so that the dropped user's level becomes the new
+			// default (which may differ from what the entry said)
+			u := sim.Pick(t, rm.users)
+			if rm.priv && rm.isCreator(u.id) && honest {
+				continue
+			}
+			delete(users, u.id)
+			out["users_default"] = level()
+			rm.r.Probe("pl_entry_dropped_with_default_moved")
 		case 0:
 			u := sim.Pick(t, rm.users)
 			if rm.priv && rm.isCreator(u.id) && honest {
